@@ -16,7 +16,7 @@ def run(chk):
         cfg = rc.set_consts("MC_C06", MaxLen=maxlen, UseNum="TRUE" if use_num else "FALSE")
         res = vlib.run_tlc("MC_C06", cfg_text=cfg, timeout=1500, heap="12g")
         chk.add_tlc(res, "MC_C06 MaxLen=%d UseNum=%s" % (maxlen, use_num))
-        total += rc.replay(chk, res.cases, layouts=("line", "inline", "mltag", "combo"), cli_sample=150 if quick else 1000,
+        total += rc.replay(chk, res.cases, layouts=("line", "inline", "inline2", "mltag", "combo", "twin"), cli_sample=150 if quick else 1000,
                            label="n" if use_num else "l")
     for use_num in (False, True):
         cfg = rc.set_consts("MC_C06", MaxLen=4 if quick else 5, UseNum="TRUE" if use_num else "FALSE", Star="TRUE")
